@@ -1,4 +1,5 @@
 import SgVerif.C26.Lemmas
+import SgVerif.C26.FatTreeLemmas
 /-
 C26 — Structured topologies follow their routing algorithms.  Property theorems (nothing else in this file).
 Every theorem is for ALL shapes (any number of dimensions, any sizes >= 1) and all node pairs: no enumeration.
@@ -164,5 +165,101 @@ which is disconnected: the green link of chassis 1 ends on router 3 = (0,1,1), n
 theorem dragonfly_same_group_regression :
     (⟨1, 2, 2, 1, false, false, true, 0⟩ : Dragonfly).steps ⟨0, 1, 0⟩ ⟨0, 0, 1⟩ =
       [⟨2, .green 1, true, 3⟩, ⟨3, .black 0, true, 3⟩] := by decide
+
+/-! ## Fat tree (FatTreeZone::get_local_route)
+
+For ALL well-formed parameters `f.WF` (levels >= 1; every down / up fan-out and link multiplicity >= 1; any static offsets)
+and every table `t` that is well formed in the sense of `FTables.WF f t` (= the executable `FTables.wfCheck f t`,
+`FTables.wfCheck_sound`): ports lead to links, links to nodes one level up / down whose label differs from the current
+node's in the digit of that level only, leaf labels are in range and distinct.  That `f.build` (the model of
+add_processing_node / generate_switches / generate_labels / connect_node_to_parents) satisfies `wfCheck` is NOT proved
+for all parameters: it is evaluated by the driver on every fat tree of the correspondence (MONFAIL otherwise), and by
+`decide` in the examples below.  The routing loops themselves (up `while`, down `while` with its inner `for` that does
+not `break`) are covered for every such table: no bound on levels, fan-outs, multiplicities. -/
+
+/-- **up to the nearest common ancestor, then down**: for two leaves `src`, `dst` (not answered by the loopback) the route is
+`ru ++ rd ++ limiter(dst)` where `ru` renders `k` tree edges going UP from `src` (each taken from the `parents` array of
+the node the previous one arrived at) and `rd` renders `k` tree edges going DOWN to `dst` (each from the `children`
+array of the node reached), `k = ncaLevel` = 1 + the highest label digit where the two leaves differ (`ncaLevel_is_nca`).
+`renderUp`/`renderDown` put the limiter of the node a hop leaves before an up link / after a down link. -/
+theorem fattree_up_to_nca_then_down (f : FatTree) (t : FTables) (hf : f.WF) (hwf : t.WF f) (src dst : Nat) (s d : FNode)
+    (hs : t.nodes[src]? = some s) (hd : t.nodes[dst]? = some d) (hs0 : s.level = 0) (hd0 : d.level = 0)
+    (hlb : ¬ (s.id = d.id ∧ f.lb = true)) :
+    ∃ ups downs ru rd top,
+      ups.length = ncaLevel s.label d.label f.levels ∧ downs.length = ncaLevel s.label d.label f.levels ∧
+      UpPath t src ups top ∧ DownPath t top downs dst ∧
+      f.renderUp t ups = some ru ∧ f.renderDown t downs = some rd ∧
+      f.route t src dst = some (ru ++ rd ++ f.limiterOf d) := by
+  obtain ⟨k1, k2, k3, k4⟩ := ncaLevel_spec s.label d.label f.levels
+  have hL : 0 < f.levels := hf.1
+  obtain ⟨ups, ru, top, tn, u1, u2, u3, u4, u5, u6, u7⟩ :=
+    upLoop_spec f t hf hwf s d hd0 (ncaLevel s.label d.label f.levels) (by omega)
+      (fun j hj hjL => k3 j hj hjL) k4 (ncaLevel s.label d.label f.levels) (f.levels + 1) src s [] hs
+      (fun _ _ _ => rfl) (by omega) k1 (by omega)
+  obtain ⟨downs, rd, d1, d2, d3, d4⟩ :=
+    downLoop_spec f t hf hwf s.position d dst hd hd0 (f.levels + 1) top tn ([] ++ ru) u5 (by rw [u6]; exact u7) (by omega)
+  refine ⟨ups, downs, ru, rd, top, u3, by omega, u4, d4, u1, d1, ?_⟩
+  simp only [List.nil_append] at u2 d2
+  unfold FatTree.route
+  simp only [hs, hd, hs0, hd0, ne_eq, not_true_eq_false, or_self, if_false, hlb, u2, d2]
+
+/-- **reaches the destination**: the tree edges of the route chain from `src` up to a node `top` and from `top` down to
+`dst` (each edge is stored in the port array of the node it leaves) -/
+theorem fattree_reaches_dst (f : FatTree) (t : FTables) (hf : f.WF) (hwf : t.WF f) (src dst : Nat) (s d : FNode)
+    (hs : t.nodes[src]? = some s) (hd : t.nodes[dst]? = some d) (hs0 : s.level = 0) (hd0 : d.level = 0)
+    (hlb : ¬ (s.id = d.id ∧ f.lb = true)) :
+    ∃ r ups downs top, f.route t src dst = some r ∧ UpPath t src ups top ∧ DownPath t top downs dst ∧
+      ∃ ru rd, f.renderUp t ups = some ru ∧ f.renderDown t downs = some rd ∧ r = ru ++ rd ++ f.limiterOf d := by
+  obtain ⟨ups, downs, ru, rd, top, _, _, h3, h4, h5, h6, h7⟩ :=
+    fattree_up_to_nca_then_down f t hf hwf src dst s d hs hd hs0 hd0 hlb
+  exact ⟨_, ups, downs, top, h7, h3, h4, ru, rd, h5, h6, rfl⟩
+
+/-- **k UP links then k DOWN links, length 2k**: the route is `ru ++ rd ++ limiter(dst)`; `ru` holds exactly `k` cables, all
+UP halves, `rd` exactly `k` cables, all DOWN halves (`k = ncaLevel`); without limiters the route has exactly `2k` links,
+with limiters `4k + 1` (one limiter per hop, for the node the hop leaves, plus the destination's) -/
+theorem fattree_link_count (f : FatTree) (t : FTables) (hf : f.WF) (hwf : t.WF f) (src dst : Nat) (s d : FNode)
+    (hs : t.nodes[src]? = some s) (hd : t.nodes[dst]? = some d) (hs0 : s.level = 0) (hd0 : d.level = 0)
+    (hlb : ¬ (s.id = d.id ∧ f.lb = true)) :
+    ∃ ru rd, f.route t src dst = some (ru ++ rd ++ f.limiterOf d) ∧
+      (ru.filter FTLink.isCable).length = ncaLevel s.label d.label f.levels ∧
+      (∀ x ∈ ru, x.isCable = true → x.isUpCable = true) ∧
+      (rd.filter FTLink.isCable).length = ncaLevel s.label d.label f.levels ∧
+      (∀ x ∈ rd, x.isCable = true → x.isDownCable = true) ∧
+      (ru ++ rd ++ f.limiterOf d).length =
+        if f.lim then 4 * ncaLevel s.label d.label f.levels + 1 else 2 * ncaLevel s.label d.label f.levels := by
+  obtain ⟨ups, downs, ru, rd, top, h1, h2, _, _, h5, h6, h7⟩ :=
+    fattree_up_to_nca_then_down f t hf hwf src dst s d hs hd hs0 hd0 hlb
+  obtain ⟨a1, a2, a3⟩ := renderUp_shape f t ups ru h5
+  obtain ⟨b1, b2, b3⟩ := renderDown_shape f t downs rd h6
+  refine ⟨ru, rd, h7, by omega, a2, by omega, b2, ?_⟩
+  simp only [List.length_append, a3, b3, limiterOf_length, h1, h2]
+  split <;> omega
+
+/-- **`ncaLevel` is the level of the nearest common ancestor**: `k = ncaLevel a b levels` is at least 1, at most `levels`,
+the labels agree on all digits `>= k` (so the ancestors of level `k` coincide: an ancestor of level `l` of a leaf keeps
+the leaf's digits `>= l`) and, when `k > 1`, they differ at digit `k - 1` (so no level below `k` has a common ancestor) -/
+theorem ncaLevel_is_nca (a b : List Nat) (levels : Nat) (h : 0 < levels) :
+    1 ≤ ncaLevel a b levels ∧ ncaLevel a b levels ≤ levels ∧
+    (∀ j, ncaLevel a b levels ≤ j → j < levels → a.getD j 0 = b.getD j 0) ∧
+    (1 < ncaLevel a b levels → a.getD (ncaLevel a b levels - 1) 0 ≠ b.getD (ncaLevel a b levels - 1) 0) := by
+  obtain ⟨k1, k2, k3, k4⟩ := ncaLevel_spec a b levels
+  exact ⟨k1, by omega, k3, k4⟩
+
+/-- **loopback**: `src = dst` with a loopback configured is answered by the loopback link alone -/
+theorem fattree_loopback (f : FatTree) (t : FTables) (src : Nat) (s : FNode) (hs : t.nodes[src]? = some s)
+    (hs0 : s.level = 0) (hlb : f.lb = true) : f.route t src src = some [.loopback s.id] := by
+  unfold FatTree.route
+  simp [hs, hs0, hlb]
+
+/-- non-vacuity: 2 levels, 2x2 leaves, 1 then 2 parents, 1 then 2 parallel cables, limiters: the construction is well formed
+(so the theorems apply to `f.build`), and a route across the top level: 2 UP cables, 2 DOWN cables, 5 limiters -/
+example : (⟨2, [2, 2], [1, 2], [1, 2], false, true, true, 0, 0⟩ : FatTree).WF := paramsOk_sound _ (by decide)
+example : FTables.WF ⟨2, [2, 2], [1, 2], [1, 2], false, true, true, 0, 0⟩
+    (FatTree.build ⟨2, [2, 2], [1, 2], [1, 2], false, true, true, 0, 0⟩) := FTables.wfCheck_sound _ _ (by decide)
+example : (FatTree.route ⟨2, [2, 2], [1, 2], [1, 2], false, true, true, 0, 0⟩
+    (FatTree.build ⟨2, [2, 2], [1, 2], [1, 2], false, true, true, 0, 0⟩) 0 3).map (·.length) = some 9 := by decide
+example : ncaLevel [0, 0] [1, 1] 2 = 2 := by decide
+example : (FatTree.route ⟨2, [2, 2], [1, 2], [1, 2], true, true, true, 0, 0⟩
+    (FatTree.build ⟨2, [2, 2], [1, 2], [1, 2], true, true, true, 0, 0⟩) 1 1) = some [.loopback 1] := by decide
 
 end SgVerif.C26
